@@ -19,11 +19,14 @@ import worlds
 # real regexes: search != match, anchors, alternation, empty, '.', '!' alone,
 # a pattern whose text after the '!' starts with '!'
 POOL = ['alpha', '^alpha', 'a$', 'pha|eta', '', '.', 'lph', r'\.', 'zzz',
-        '!alpha', '!^b', '!eta$', '!', '!!x', '!.', '!zzz', '!a|b']
+        '!alpha', '!^b', '!eta$', '!', '!!x', '!.', '!zzz', '!a|b',
+        # capturing groups, a backreference, an inline flag, a named group: a
+        # pattern must keep its meaning whatever other patterns are in the list
+        r'(a|b)l', r'(.)\1', '(?i)ALPHA', r'(?P<n>p)h', r'!(e)t\1?a']
 # (the empty string is not a candidate: no test id, module or layer name is
 # empty; with only '!'-patterns the code selects "everything that matches '.'")
 NAMES = ['alpha', 'beta', 'xalphax', 'a.b', 'b', 'alpha beta', '!x', 'ALPHA',
-         'test_alpha (tests.TL1.test_alpha)', 'tests.L1', 'x!xeta']
+         'test_alpha (tests.TL1.test_alpha)', 'tests.L1', 'x!xeta', 'aab', 'test_zz']
 VERIF = os.path.dirname(os.path.dirname(os.path.abspath(__file__)))
 
 
